@@ -61,10 +61,13 @@ AllFinalOps ==
      Dedup,
      Sort(<<Term(A, FALSE)>>), Sort(TotalAB), Sort(<<Term(D, TRUE), Term(A, TRUE)>>),
      Slice(0, 1), Slice(1, 3)}
+\* the documented no-op forms, issued with every option combination as well
+NoOpForms(cols) == {Sort(<<>>), Slice(0, -1), Proj(cols), Sel(PLit(TRUE))}
 FinalMenu(cols) == {op \in (IF FinalOps = "all" THEN AllFinalOps
                             ELSE {Calc("e", Fn("neg", <<A>>)), Proj({"a"}), Sel(Cmp("eq", A, Lit(0))), Dedup,
                                   Sort(TotalAB), Slice(0, 1)})
                       : BeginErr(op, cols) = "none" /\ ~(op.o = "calc" /\ op.tag \in cols)}
+                     \cup NoOpForms(cols)
 
 NCalcs(h) == Cardinality({i \in DOMAIN h : h[i].f = "un" /\ h[i].op.o = "calc"})
 NMats(h) == Cardinality({i \in DOMAIN h : h[i].f = "mat"})
